@@ -230,3 +230,7 @@ void h_lemma_first_colon_is_separator(void) { size_t U, P; lemma_first_colon_is_
 '''},
     {'name': 'Authorization_getBasicPassword', 'enforce': 'Pistache_Http_Header_Authorization_getBasicPassword', 'loops': 'contracts', 'replace': ['Authorization_hasMethod_Basic'], 'props': ['C20', 'C03']},
 ]
+# thorough tier: set/get of Basic credentials on the real code: empty parts, ':' in the password, ':' in the user (must be refused), bytes >= 0x80
+def _hx(s): return ''.join('%02x' % b for b in s.encode('latin-1')) or '-'
+NATIVE_SWEEPS = [{'name': 'basic_credentials', 'driver': 'auth_rt', 'props': ['C20'], 'what': 'Authorization::setBasicUserPassword + getBasicUser/getBasicPassword',
+                  'argvs': [[_hx(u), _hx(p)] for u in ('', 'a', 'alice', 'Aladdin', 'us er', 'a:b', '\xe9\xff') for p in ('', 'p', 'open sesame', 's:e:c', ':', 'x:', ':x', '\x80\x00\xffz')]}]
